@@ -226,7 +226,12 @@ let main_exec () =
       | Some x, Some y ->
         if x.status = "budget" && y.status = "ok" && y.steps * 50 < !budget then viol "C05" (Printf.sprintf "%s:step-budget-exceeded(%s=%d)" a b y.steps);
         if y.status = "budget" && x.status = "ok" && x.steps * 50 < !budget then viol "C05" (Printf.sprintf "%s:step-budget-exceeded(%s=%d)" b a x.steps);
-        if x.status = "budget" && y.status = "budget" then incr inconclusive
+        if x.status = "budget" && y.status = "budget" then incr inconclusive;
+        (* both finish, but one needs far more steps than the same ordered search in the other engine *)
+        if x.status = "ok" && y.status = "ok" then begin
+          if x.steps > 40 * y.steps + 2000 then viol "C05" (Printf.sprintf "%s:%d-steps-vs-%s:%d" a x.steps b y.steps);
+          if y.steps > 40 * x.steps + 2000 then viol "C05" (Printf.sprintf "%s:%d-steps-vs-%s:%d" b y.steps a x.steps)
+        end
       | _ -> () in
     c05 "bt8" "pk8"; c05 "bta" "pka";
     List.iter (fun r -> if r.status = "panic" then viol "C06" (Printf.sprintf "%s:panic" r.engine)) g;
@@ -335,4 +340,6 @@ let () =
   match Array.to_list Sys.argv with
   | _ :: "api" :: _ -> Apidrv.run ()
   | _ :: "spec" :: _ -> Specdrv.run ()
+  | _ :: "cps" :: _ -> Cpsdrv.run_cps ()
+  | _ :: "fold" :: _ -> Cpsdrv.run_fold ()
   | _ -> main_exec ()
